@@ -64,11 +64,13 @@ def ensure_facts(config="default", repo=None, force=False, quiet=False):
     out = os.path.join(CACHE, "facts", "%s.%s.jsonl" % (config, key))
     info = {"hash": key, "config": config, "repo": repo, "reused": True, "driver_s": 0.0}
     if os.path.exists(out) and not force:
+        _touch(out)
         return out, key, info
     lock_path = os.path.join(CACHE, "lock")
     with open(lock_path, "w") as lock:
         fcntl.flock(lock, fcntl.LOCK_EX)
         if os.path.exists(out) and not force:
+            _touch(out)
             return out, key, info
         t0 = time.time()
         target = os.path.join(CACHE, "target")
@@ -102,10 +104,29 @@ def ensure_facts(config="default", repo=None, force=False, quiet=False):
     return out, key, info
 
 
-def _prune(keep=8):
+def _touch(path):
+    """a reused fact file is in use: keep it young so that a concurrent run's pruning leaves it alone"""
+    try:
+        os.utime(path, None)
+    except OSError:
+        pass
+
+
+def _prune(keep=8, min_age_s=600):
+    """drop all but the newest `keep` fact files - but never one used in the last ten minutes (checks of several
+    properties, and the scratch-copy variants of the thorough tier, run concurrently and share this cache)"""
     d = os.path.join(CACHE, "facts")
     files = sorted((os.path.getmtime(os.path.join(d, f)), f) for f in os.listdir(d) if f.endswith(".jsonl"))
-    for _, f in files[:-keep]:
+    now = time.time()
+    for f in os.listdir(d):
+        if ".jsonl.part." in f and now - os.path.getmtime(os.path.join(d, f)) > 3600:
+            try:
+                os.remove(os.path.join(d, f))      # left behind by an interrupted run
+            except OSError:
+                pass
+    for mt, f in files[:-keep]:
+        if now - mt < min_age_s:
+            continue
         try:
             os.remove(os.path.join(d, f))
         except OSError:
